@@ -5,9 +5,141 @@ from __future__ import annotations
 
 import ast
 
-from ..gen import Kernel, Untranslatable, all_stmts, assign_value, register, straightline
-from ..pyexpr import emit_def, translate_block
+from ..gen import EXTRA, REPO, Kernel, Untranslatable, all_stmts, assign_value, find_assign, register, straightline
+from ..pyexpr import emit_def, parse_file, translate_block
 from .c04 import F, MG, Tr, if_assign
+from .c05 import GENERATORS as C05_GENERATORS, SUB, TableBuilder, temp_seed_shape
+
+RD = ("DirectVerif.Model.MaskGeom", "DirectVerif.Model.C06Round")
+
+
+class RTr(Tr):
+    """Tr + the binary64 glue of the ACS width, exactly: a *float leaf* (`center_fraction`, `acceleration`) is bound to
+    a pair of Lean Int terms (numerator, denominator of its exact value).  `int(round(i * x))`, `int(round(i / x))`,
+    `int(i * x)`, `int(x)`, `round(…)` become calls of `C06Round.roundFl / truncFl / roundHalfEven / truncQ`;
+    comparisons of a float leaf with a literal become integer comparisons."""
+
+    def __init__(self, binds, bool_binds=None, floats=None):
+        super().__init__(binds, bool_binds)
+        self.floats = dict(floats or {})
+
+    def _is_float(self, node) -> bool:
+        return ast.unparse(node) in self.floats
+
+    def fexact(self, node):
+        """(num, den, rounded) — Lean Nat terms of the exact rational value of a float expression made of ONE
+        operation on an int and a float leaf (its binary64 rounding is applied by the caller when `rounded`)"""
+        if self._is_float(node):
+            n, d = self.floats[ast.unparse(node)]
+            return f"{n}.toNat", f"{d}.toNat", False
+        if isinstance(node, ast.BinOp) and isinstance(node.op, (ast.Mult, ast.Div)):
+            lf, rf = self._is_float(node.left), self._is_float(node.right)
+            if isinstance(node.op, ast.Mult) and lf != rf:
+                i, x = (node.right, node.left) if lf else (node.left, node.right)
+                n, d = self.floats[ast.unparse(x)]
+                return f"({self.int(i)}).toNat * {n}.toNat", f"{d}.toNat", True
+            if isinstance(node.op, ast.Div) and rf and not lf:
+                n, d = self.floats[ast.unparse(node.right)]
+                return f"({self.int(node.left)}).toNat * {d}.toNat", f"{n}.toNat", True
+            if isinstance(node.op, ast.Div) and not lf and not rf:
+                return f"({self.int(node.left)}).toNat", f"({self.int(node.right)}).toNat", True
+        raise Untranslatable(f"float expression `{ast.unparse(node)}`")
+
+    def int(self, node):
+        if self._is_float(node):                      # a float used where an int is expected (`num_low_freqs = center_fraction`)
+            n, d = self.floats[ast.unparse(node)]
+            return f"((C06Round.truncQ {n}.toNat {d}.toNat : Nat) : Int)"
+        if isinstance(node, ast.Call) and isinstance(node.func, ast.Name) and len(node.args) == 1 and not node.keywords \
+                and ast.unparse(node) not in self.binds:
+            f, a = node.func.id, node.args[0]
+            inner_round = (isinstance(a, ast.Call) and isinstance(a.func, ast.Name) and a.func.id == "round"
+                           and len(a.args) == 1 and not a.keywords)
+            try:
+                if f == "round" or (f == "int" and inner_round):
+                    n, d, r = self.fexact(a.args[0] if (f == "int" and inner_round) else a)
+                    return f"((C06Round.{'roundFl' if r else 'roundHalfEven'} ({n}) ({d}) : Nat) : Int)"
+                if f == "int":
+                    n, d, r = self.fexact(a)
+                    return f"((C06Round.{'truncFl' if r else 'truncQ'} ({n}) ({d}) : Nat) : Int)"
+            except Untranslatable:
+                pass
+        return super().int(node)
+
+    def _frac(self, node):
+        """(num, den) Lean Int terms of a float leaf or an integer-valued literal, else None"""
+        if self._is_float(node):
+            return self.floats[ast.unparse(node)]
+        if isinstance(node, ast.Constant) and isinstance(node.value, (int, float)) and not isinstance(node.value, bool) \
+                and float(node.value) == int(node.value):
+            return f"({int(node.value)} : Int)", "(1 : Int)"
+        return None
+
+    def bool(self, node):
+        # (chained) comparisons between float leaves and integer-valued literals: cross-multiplied (denominators > 0)
+        if isinstance(node, ast.Compare) and ast.unparse(node) not in self.bool_binds:
+            ops = [node.left] + list(node.comparators)
+            fr = [self._frac(o) for o in ops]
+            if all(f is not None for f in fr) and any(self._is_float(o) for o in ops) \
+                    and all(type(op) in self._CMP for op in node.ops):
+                parts = []
+                for (an, ad), (bn, bd), op in zip(fr, fr[1:], node.ops):
+                    sym = self._CMP[type(op)]
+                    lhs = an if bd == "(1 : Int)" else f"{an} * {bd}"
+                    rhs = bn if ad == "(1 : Int)" else f"{bn} * {ad}"
+                    parts.append(f"({lhs} {sym} {rhs})" if sym in ("==", "!=") else f"(decide ({lhs} {sym} {rhs}))")
+                return "(" + " && ".join(parts) + ")"
+        return super().bool(node)
+
+
+_CF = {"center_fraction": ("cf_num", "cf_den")}
+_ACC = {"acceleration": ("acc_num", "acc_den")}
+
+
+def num_low_if_exact():
+    """`if <test on center_fraction>: num_low_freqs = A else: num_low_freqs = B`, float glue translated"""
+
+    def build(k, fn):
+        tr = RTr({"num_cols": "num_cols"}, None, _CF)
+        for st in all_stmts(fn):
+            if isinstance(st, ast.If) and st.orelse and len(st.body) == 1 and len(st.orelse) == 1:
+                a, b = st.body[0], st.orelse[0]
+                if all(isinstance(s, ast.Assign) and ast.unparse(s.targets[0]) == "num_low_freqs" for s in (a, b)):
+                    return emit_def(k.name, k.params, [], f"(if {tr.bool(st.test)} then {tr.int(a.value)} else {tr.int(b.value)})")
+        raise Untranslatable("if/else assignment of num_low_freqs not found")
+
+    return build
+
+
+def ctor_guard():
+    """`if not all(<test on center_fraction> for center_fraction in center_fractions): raise ValueError` of a
+    constructor: the per-element acceptance test"""
+
+    def build(k, fn):
+        tr = RTr({}, {"isinstance(center_fraction, int)": "(is_int != 0)"}, _CF)
+        for st in all_stmts(fn):
+            if not (isinstance(st, ast.If) and st.body and isinstance(st.body[0], ast.Raise) and not st.orelse):
+                continue
+            t = st.test
+            if isinstance(t, ast.UnaryOp) and isinstance(t.op, ast.Not) and isinstance(t.operand, ast.Call) \
+                    and ast.unparse(t.operand.func) == "all" and len(t.operand.args) == 1 \
+                    and isinstance(t.operand.args[0], ast.GeneratorExp):
+                g = t.operand.args[0]
+                if len(g.generators) == 1 and not g.generators[0].ifs and ast.unparse(g.generators[0].target) == "center_fraction" \
+                        and ast.unparse(g.generators[0].iter) == "center_fractions":
+                    return emit_def(k.name, k.params, [], tr.bool(g.elt), "Bool")
+        raise Untranslatable("`if not all(… for center_fraction in center_fractions): raise` not found")
+
+    return build
+
+
+def assign_exact(target: str, floats: dict, nth: int = 0):
+    """right-hand side of the nth assignment to `target`, float glue translated"""
+
+    def build(k, fn):
+        tr = RTr({"num_cols": "num_cols"}, None, floats)
+        return emit_def(k.name, k.params, [], tr.int(find_assign(fn, target, nth).value))
+
+    return build
 
 
 def slice_bound(binds, target_base: str, which: str):
@@ -93,18 +225,28 @@ register("C06", [
            "MaskGeom.zeroPadStart", zero_pad_slice(0), imports=MG),
     Kernel("zero_pad_stop", F, "KtBaseMaskFunc.zero_pad_to_center", ["target_dim", "current_dim"],
            "(fun t c => MaskGeom.zeroPadStart t c + c)", zero_pad_slice(1), imports=MG),
-    Kernel("num_low_random", F, "RandomMaskFunc.mask_func", ["is_fraction", "rounded", "count"],
-           "(fun f r c => MaskGeom.numLowFreqs (f != 0) r c)",
-           num_low_if({_rounded: "rounded", "int(center_fraction)": "count"}, {"center_fraction < 1.0": "(is_fraction != 0)"}),
-           imports=MG),
-    Kernel("num_low_equispaced", F, "EquispacedMaskFunc.mask_func", ["is_fraction", "rounded", "count"],
-           "(fun f r c => MaskGeom.numLowFreqs (f != 0) r c)",
-           num_low_if({_rounded: "rounded", "int(center_fraction)": "count"}, {"center_fraction < 1.0": "(is_fraction != 0)"}),
-           imports=MG),
-    Kernel("num_low_magic", F, "MagicMaskFunc.mask_func", ["is_count", "rounded", "count"],
-           "(fun f r c => MaskGeom.numLowFreqs (f == 0) r c)",
-           num_low_if({_rounded: "rounded", "center_fraction": "count"}, {"center_fraction > 1": "(is_count != 0)"}),
-           imports=MG),
+    Kernel("num_low_random", F, "RandomMaskFunc.mask_func", ["num_cols", "cf_num", "cf_den"],
+           "(fun n a b => C06Round.numLowFraction n a b)", num_low_if_exact(), imports=RD),
+    Kernel("num_low_equispaced", F, "EquispacedMaskFunc.mask_func", ["num_cols", "cf_num", "cf_den"],
+           "(fun n a b => C06Round.numLowFraction n a b)", num_low_if_exact(), imports=RD),
+    Kernel("num_low_magic", F, "MagicMaskFunc.mask_func", ["num_cols", "cf_num", "cf_den"],
+           "(fun n a b => C06Round.numLowMagicRaw n a b)", num_low_if_exact(), imports=RD),
+    Kernel("magic_target", F, "MagicMaskFunc.mask_func", ["num_cols", "acc_num", "acc_den"],
+           "(fun n a b => ((C06Round.roundQuot n.toNat a.toNat b.toNat : Nat) : Int))",
+           assign_exact("target_cols_to_sample", _ACC), imports=RD),
+    Kernel("num_low_gaussian1d", F, "Gaussian1DMaskFunc.mask_func", ["num_cols", "cf_num", "cf_den"],
+           "(fun n a b => ((C06Round.roundMul n.toNat a.toNat b.toNat : Nat) : Int))",
+           assign_exact("num_low_freqs", _CF), imports=RD),
+    Kernel("num_low_ktuniform", F, "KtUniformMaskFunc.mask_func", ["num_cols", "cf_num", "cf_den"],
+           "(fun n a b => ((C06Round.roundMul n.toNat a.toNat b.toNat : Nat) : Int))",
+           assign_exact("num_low_freqs", _CF), imports=RD),
+    Kernel("num_low_ktgaussian1d", F, "KtGaussian1DMaskFunc.mask_func", ["num_cols", "cf_num", "cf_den"],
+           "(fun n a b => ((C06Round.roundMul n.toNat a.toNat b.toNat : Nat) : Int))",
+           assign_exact("num_low_freqs", _CF), imports=RD),
+    *[Kernel(f"ctor_accepts_{nm.lower()}", F, f"{nm}MaskFunc.__init__", ["cf_num", "cf_den", "is_int"],
+             "(fun a b i => C06Round.fractionAccepted a b i)" if nm.startswith("FastMRI") else "(fun a b i => C06Round.countAccepted a b i)",
+             ctor_guard(), ret_type="Bool", imports=RD)
+      for nm in ("FastMRIRandom", "FastMRIEquispaced", "FastMRIMagic", "CartesianRandom", "CartesianEquispaced", "CartesianMagic")],
     Kernel("magic_cap", F, "MagicMaskFunc.mask_func", ["l", "target"], "MaskGeom.magicCap",
            assign_value({"num_low_freqs": "l", "target_cols_to_sample": "target"}, "num_low_freqs", nth=2), imports=MG),
     Kernel("magic_adjusted_target", F, "MagicMaskFunc.mask_func", ["l", "target"], "(fun l target => target - l)",
@@ -118,3 +260,209 @@ register("C06", [
            bool_assign({"Y": "x", "X": "y", "center[0]": "cx", "center[1]": "cy", "radius ** 2": "thr"}, "disk"),
            ret_type="Bool", imports=MG),
 ])
+
+
+# --------------------------------------------------------------------------------------------------
+# structural tables: how the seed reaches the random stream, what an object remembers, what `__call__` does
+_CACHE_DECOS = ("cache", "lru_cache", "cached_property", "memoize", "memoized", "cached")
+_MUTATORS = TableBuilder._MUTATORS
+
+
+class StateScan(TableBuilder):
+    """C05's walker (instance-state writes in `mask_func` and every helper it reaches), additionally remembering the
+    functions reached so that class-level / module-level state and memoising decorators can be looked for in them"""
+
+    def __init__(self, tree: ast.Module):
+        super().__init__(tree)
+        self.reached: dict[str, tuple] = {}
+        self.module_names = set()
+        for st in tree.body:
+            tg = st.targets if isinstance(st, ast.Assign) else [st.target] if isinstance(st, (ast.AnnAssign, ast.AugAssign)) else []
+            for t in tg:
+                for n in ast.walk(t):
+                    if isinstance(n, ast.Name):
+                        self.module_names.add(n.id)
+
+    def walk_fn(self, fn, owner, cls, in_priv_scope, param_prov, lead):
+        qual = f"{owner}.{fn.name}" if owner else fn.name
+        self.reached.setdefault(qual, (fn, self._gen["name"]))
+        super().walk_fn(fn, owner, cls, in_priv_scope, param_prov, lead)
+
+    def entry(self, gen: str, method: str):
+        """walk `<gen>MaskFunc.<method>` (resolved through the bases) like a `mask_func`"""
+        cls = gen + "MaskFunc"
+        owner, fn = self.resolve(cls, method)
+        if fn is None:
+            raise Untranslatable(f"{cls}.{method} not found")
+        self._gen = {"name": gen, "sites": [], "lead": [], "acs_line": -1, "scope_ok": False, "owner": owner}
+        self._visited = set()
+        self.walk_fn(fn, owner, cls, in_priv_scope=False, param_prov={}, lead=False)
+        return owner, fn
+
+    def shared_state(self) -> list[dict]:
+        """class-level / module-level state touched, `global` / `nonlocal`, memoising decorators and mutable default
+        arguments, in every function reached"""
+        out = []
+        shared = self.module_names | set(self.classes)
+
+        def base_of(n):
+            while isinstance(n, (ast.Attribute, ast.Subscript)):
+                n = n.value
+            return n
+
+        def is_shared_base(b, top) -> bool:
+            if isinstance(b, ast.Name):
+                if b.id == "cls":
+                    return True
+                # a bare module-level name can only be *mutated* (attribute / item store), never rebound without `global`
+                return b.id in shared and top is not b
+            if isinstance(b, ast.Call) and ast.unparse(b) in ("type(self)", "self.__class__"):
+                return True
+            return False
+
+        for qual, (fn, gen) in self.reached.items():
+            def rec(lineno, text):
+                r = {"gen": gen, "func": qual, "lineno": lineno, "text": text.replace('"', "'")[:50]}
+                if not any(x["func"] == qual and x["lineno"] == lineno and x["text"] == r["text"] for x in out):
+                    out.append(r)
+
+            for d in fn.decorator_list:
+                name = ast.unparse(d.func if isinstance(d, ast.Call) else d).split(".")[-1]
+                if name in _CACHE_DECOS:
+                    rec(d.lineno, "@" + ast.unparse(d))
+            for a, dflt in zip(reversed(fn.args.args + fn.args.kwonlyargs), reversed(fn.args.defaults + fn.args.kw_defaults)):
+                if isinstance(dflt, (ast.Dict, ast.List, ast.Set)) or (
+                        isinstance(dflt, ast.Call) and ast.unparse(dflt.func) in ("dict", "list", "set", "defaultdict", "OrderedDict")):
+                    rec(fn.lineno, f"mutable default {a.arg}={ast.unparse(dflt)}")
+            for n in ast.walk(fn):
+                if isinstance(n, (ast.Global, ast.Nonlocal)):
+                    rec(n.lineno, ("global " if isinstance(n, ast.Global) else "nonlocal ") + ", ".join(n.names))
+                if isinstance(n, (ast.Attribute, ast.Subscript)) and isinstance(getattr(n, "ctx", None), (ast.Store, ast.Del)):
+                    b = base_of(n)
+                    if is_shared_base(b, n) or ".__class__." in ast.unparse(n) or ast.unparse(n).startswith("self.__class__"):
+                        rec(n.lineno, ast.unparse(n))
+                if isinstance(n, ast.Call) and isinstance(n.func, ast.Attribute) and n.func.attr in _MUTATORS:
+                    b = base_of(n.func.value)
+                    txt = ast.unparse(n.func.value)
+                    if (isinstance(b, ast.Name) and (b.id in shared or b.id == "cls")) or txt.startswith(("type(self)", "self.__class__")):
+                        rec(n.lineno, ast.unparse(n))
+        return out
+
+
+def _temp_seed_args(tree: ast.Module) -> list[str]:
+    """the argument lists of every `<rng>.seed(…)` call inside `temp_seed`, parameters renamed `$0` (stream), `$1` (seed)"""
+    fn = next((f for f in tree.body if isinstance(f, ast.FunctionDef) and f.name == "temp_seed"), None)
+    if fn is None:
+        return ["?missing"]
+    params = [a.arg for a in fn.args.args]
+    out = []
+
+    class Ren(ast.NodeTransformer):
+        def visit_Name(self, n):
+            return ast.copy_location(ast.Name(id=f"${params.index(n.id)}", ctx=n.ctx), n) if n.id in params else n
+
+    rebound = [n for n in ast.walk(fn) if isinstance(n, ast.Name) and isinstance(n.ctx, (ast.Store, ast.Del)) and n.id in params]
+    for n in ast.walk(fn):
+        if isinstance(n, ast.Call) and isinstance(n.func, ast.Attribute) and n.func.attr == "seed":
+            args = [ast.unparse(Ren().visit(ast.parse(ast.unparse(a), mode="eval").body)) for a in n.args]
+            args += [f"{k.arg}={ast.unparse(Ren().visit(ast.parse(ast.unparse(k.value), mode='eval').body))}" for k in n.keywords]
+            out.append(", ".join(args))
+    if rebound:
+        out.append("?parameter rebound: " + ", ".join(sorted({n.id for n in rebound})))
+    return out
+
+
+_FORWARD = "self.mask_func(shape, *args, **kwargs)"
+
+
+def _call_plan(fn: ast.FunctionDef) -> list[str]:
+    body = [st for st in fn.body if not (isinstance(st, ast.Expr) and isinstance(st.value, ast.Constant))]
+    toks, i = [], 0
+    while i < len(body):
+        st = body[i]
+        if isinstance(st, ast.If) and not st.orelse and st.body and all(isinstance(s, ast.Raise) for s in st.body):
+            toks.append("guard")
+        elif isinstance(st, ast.Return) and st.value is not None and ast.unparse(st.value) == _FORWARD:
+            toks.append("forward")
+        elif (isinstance(st, ast.Assign) and len(st.targets) == 1 and isinstance(st.targets[0], ast.Name)
+              and ast.unparse(st.value) == _FORWARD and i + 1 < len(body) and isinstance(body[i + 1], ast.Return)
+              and ast.unparse(body[i + 1].value) == st.targets[0].id):
+            toks.append("forward")
+            i += 1
+        else:
+            toks.append("?" + type(st).__name__ + f"@{st.lineno}")
+        i += 1
+    return toks
+
+
+def seed_tables() -> dict:
+    tree = parse_file(REPO / SUB)
+    sc = StateScan(tree)
+    rows, plans = [], {}
+    for g in C05_GENERATORS:
+        sc.generator(g)                       # mask_func + helpers: RNG sites, `with temp_seed(self.rng, seed)`, self-writes
+        gi = sc.gens[-1]
+        owner, fn = sc.resolve(g + "MaskFunc", "mask_func")
+        rebound = any(isinstance(n, ast.Name) and n.id == "seed" and isinstance(n.ctx, (ast.Store, ast.Del)) for n in ast.walk(fn))
+        withs = [n for n in ast.walk(fn) if isinstance(n, ast.With) and any(sc._temp_seed_item(i) for i in n.items)]
+        chooses = [n for n in ast.walk(fn) if isinstance(n, ast.Call) and ast.unparse(n.func) == "self.choose_acceleration"]
+        inside = (len(withs) == 1 and len(chooses) == 1 and gi["acs_line"] > 0 and chooses[0].lineno < gi["acs_line"]
+                  and any(c is chooses[0] for c in ast.walk(withs[0])))
+        rows.append((g, bool(gi["scope_ok"]), bool(rebound), bool(inside)))
+    for g in C05_GENERATORS:
+        owner, fn = sc.entry(g, "__call__")   # `__call__` (+ whatever it reaches) as a second entry point
+        plans.setdefault(owner, _call_plan(fn))
+    writes = list(sc.self_writes)
+    for w in sc.shared_state():
+        if w not in writes:
+            writes.append(w)
+    return {"temp_seed": temp_seed_shape(tree), "temp_seed_args": _temp_seed_args(tree), "writes": writes,
+            "plans": sorted(plans.items()), "rows": rows, "reached": sorted(sc.reached)}
+
+
+def _b(x) -> str:
+    return "true" if x else "false"
+
+
+def _q(s: str) -> str:
+    return '"' + s.replace("\\", "\\\\").replace('"', "'") + '"'
+
+
+def _seed_extra():
+    try:
+        t = seed_tables()
+    except (Untranslatable, SyntaxError, OSError, StopIteration, AttributeError, TypeError) as e:
+        text = (f"/-- SKIPPED ({e}) — last-known-good tables, the bridge is vacuous -/\n"
+                'def tempSeed : List String := ["get_state", "seed", "try", "yield", "finally", "set_state"]\n'
+                'def tempSeedArgs : List String := ["$1"]\n'
+                "def stateWrites : List (String × String × String) := []\n"
+                'def callPlans : List (String × List String) := [("BaseMaskFunc", ["guard", "guard", "forward"])]\n'
+                "def seedParams : List (String × Bool × Bool × Bool) :=\n  ["
+                + ", ".join(f'("{g}", true, false, true)' for g in C05_GENERATORS) + "]\n")
+        return text, {"seed_pass_through": f"skipped: {e}"}
+    L = ["/-- statement skeleton of `temp_seed` (`seed` only when `rng.seed` gets exactly the seed parameter) -/",
+         "def tempSeed : List String := [" + ", ".join(_q(x) for x in t["temp_seed"]) + "]\n",
+         "/-- arguments of every `<stream>.seed(…)` call in `temp_seed` (`$0` stream, `$1` seed) -/",
+         "def tempSeedArgs : List String := [" + ", ".join(_q(x) for x in t["temp_seed_args"]) + "]\n",
+         f"/-- instance / class / module state written, memoising decorators, mutable defaults in the {len(t['reached'])} functions\n"
+         "reachable from `mask_func` or `__call__` of the 14 generators: (generator, where, what) — must be empty -/",
+         "def stateWrites : List (String × String × String) := ["]
+    for i, w in enumerate(t["writes"]):
+        sep = "," if i + 1 < len(t["writes"]) else ""
+        L.append(f'  ({_q(w["gen"])}, {_q(w["func"] + ":" + str(w["lineno"]))}, {_q(w["text"])}){sep}')
+    L.append("]\n")
+    L.append("/-- `__call__` of every class the 14 generators inherit it from: `guard`* then one `forward` -/")
+    L.append("def callPlans : List (String × List String) := ["
+             + ", ".join(f"({_q(o)}, [" + ", ".join(_q(x) for x in p) + "])" for o, p in t["plans"]) + "]\n")
+    L.append("/-- per generator: (name, one `with temp_seed(self.rng, seed)` over the parameter, `seed` rebound in `mask_func`,\n"
+             "`choose_acceleration` called once, inside the block, before the `return_acs` return) -/")
+    L.append("def seedParams : List (String × Bool × Bool × Bool) := [")
+    for i, (g, a, b, c) in enumerate(t["rows"]):
+        sep = "," if i + 1 < len(t["rows"]) else ""
+        L.append(f"  ({_q(g)}, {_b(a)}, {_b(b)}, {_b(c)}){sep}")
+    L.append("]\n")
+    return "\n".join(L), {"seed_pass_through": "translated", "state_writes(instance/class/module/memo decorators)": "translated",
+                          "call_plan": "translated", "seed_param_and_choice_order": "translated"}
+
+
+EXTRA["C06"] = _seed_extra
